@@ -707,6 +707,86 @@ func Matrix() []*Program {
 			emit("matrix-stack-full-1", 1023)
 		}
 	}
+	// the standard precompiles on small crafted inputs (the boundary cases of their own arithmetic and validation): the input is built
+	// in memory, the precompile is reached by STATICCALL with all gas, the success flag, the return-data size and the first 64 bytes of
+	// the return data are returned
+	{
+		pcProg := func(name string, addr byte, input []byte, forks []string) {
+			c := &code{}
+			for i := 0; i < len(input); i += 32 {
+				chunk := make([]byte, 32)
+				copy(chunk, input[i:])
+				c.b = append(c.b, 0x7f)
+				c.b = append(c.b, chunk...)
+				c.pushN(0x100 + uint64(i)).op(0x52)
+			}
+			c.pushN(0x40).pushN(0x40).pushN(uint64(len(input))).pushN(0x100).pushAddr(common.BytesToAddress([]byte{addr})).op(0x5a, 0xfa)
+			c.pushN(0).op(0x52).op(0x3d).pushN(0x20).op(0x52).pushN(0x80).pushN(0).op(0xf3)
+			mk(name, c.b)
+			p := out[len(out)-1]
+			p.Gas, p.Forks = 2_000_000, forks
+		}
+		word := func(v uint64) []byte { return common.LeftPadBytes(new(big.Int).SetUint64(v).Bytes(), 32) }
+		cat := func(bs ...[]byte) []byte {
+			var o []byte
+			for _, b := range bs {
+				o = append(o, b...)
+			}
+			return o
+		}
+		// MODEXP: base, exponent, modulus over {0, 1, 2, 3}, one byte each and 32 bytes each
+		for _, l := range []uint64{1, 32} {
+			for b := uint64(0); b < 4; b++ {
+				for e := uint64(0); e < 4; e++ {
+					for m := uint64(0); m < 4; m++ {
+						val := func(v uint64) []byte { return common.LeftPadBytes([]byte{byte(v)}, int(l)) }
+						pcProg("matrix-precompile", 5, cat(word(l), word(l), word(l), val(b), val(e), val(m)), []string{"Byzantium", "Berlin"})
+					}
+				}
+			}
+		}
+		pcProg("matrix-precompile", 5, cat(word(0), word(0), word(0)), []string{"Byzantium", "Berlin"})
+		pcProg("matrix-precompile", 5, cat(word(1), word(0), word(1), []byte{1, 1}), []string{"Byzantium", "Berlin"})
+		// ECRECOVER: v in {0, 1, 26, 27, 28, 29, 2^8+27}, zero / non-zero r and s
+		for _, v := range []uint64{0, 1, 26, 27, 28, 29, 283} {
+			for _, rs := range [][2]uint64{{0, 0}, {1, 1}, {7, 0}, {0, 7}} {
+				pcProg("matrix-precompile", 1, cat(word(0xabcdef), word(v), word(rs[0]), word(rs[1])), []string{"Frontier", "London"})
+			}
+		}
+		// SHA256, RIPEMD160, IDENTITY on lengths around a block
+		for _, a := range []byte{2, 3, 4} {
+			for _, n := range []int{0, 1, 31, 32, 33, 55, 56, 64, 65} {
+				in := make([]byte, n)
+				for i := range in {
+					in[i] = byte(i + 1)
+				}
+				pcProg("matrix-precompile", a, in, []string{"Frontier", "Berlin"})
+			}
+		}
+		// BN256 add / mul / pairing: the point at infinity, the generator, a point not on the curve, short input; pairing with 0 and 1 (invalid) pairs
+		g1 := cat(word(1), word(2))
+		for _, in := range [][]byte{{}, cat(word(0), word(0), word(0), word(0)), cat(g1, word(0), word(0)), cat(g1, g1), cat(word(1), word(1), word(0), word(0)), g1[:40]} {
+			pcProg("matrix-precompile", 6, in, []string{"Byzantium", "Istanbul"})
+		}
+		for _, in := range [][]byte{{}, cat(g1, word(0)), cat(g1, word(1)), cat(g1, word(2)), cat(word(1), word(1), word(2)), cat(word(0), word(0), word(5))} {
+			pcProg("matrix-precompile", 7, in, []string{"Byzantium", "Istanbul"})
+		}
+		for _, in := range [][]byte{{}, make([]byte, 192), make([]byte, 191), make([]byte, 193), cat(g1, make([]byte, 128))} {
+			pcProg("matrix-precompile", 8, in, []string{"Byzantium", "Istanbul"})
+		}
+		// BLAKE2F: rounds 0, 1, 12; final flag 0, 1, 2 (invalid); lengths 212, 213, 214
+		for _, rounds := range []byte{0, 1, 12} {
+			for _, fin := range []byte{0, 1, 2} {
+				in := make([]byte, 213)
+				in[3] = rounds
+				in[4] = 0x48
+				in[212] = fin
+				pcProg("matrix-precompile", 9, in, []string{"Istanbul", "London"})
+			}
+		}
+		pcProg("matrix-precompile", 9, make([]byte, 212), []string{"Istanbul", "London"})
+		pcProg("matrix-precompile", 9, make([]byte, 214), []string{"Istanbul", "London"})
+	}
 	// CREATE / CREATE2 from memory of every size class around the init-code limit (EIP-3860: 49152 bytes, from Shanghai on only),
 	// on every fork; the address word, the gas left after it and the return-data size are observable
 	for _, op := range []byte{0xf0, 0xf5} {
